@@ -798,7 +798,7 @@ def _validate(obl, model, numeric, seed):
                     "symbolic_value_of_code": _jsonable_val(got), "samples_tried": tried,
                     "hypotheses_not_evaluable": len(unknown_hyps)}
         agree += 1
-        if admissible >= MIN_ADMISSIBLE and len({f.split("+")[0] for f in fams}) >= 10 and tried >= 120:
+        if admissible >= MIN_ADMISSIBLE and len({f.split("+")[0] for f in fams}) >= 10 and tried >= 3 * MIN_ADMISSIBLE:
             break
     if opaque_differs:
         return {"status": "unknown", "reason": f"the two sides differ on {opaque_differs} samples that give arbitrary values to sub-terms without "
